@@ -107,46 +107,79 @@ fn type_code(kind: &str, k: u64) -> u64 {
     }
 }
 
+/// The 12-bit altitude field of BDS 0,5 rotates over: not available (all zeros), a Q = 1
+/// code (25 ft, from `fill`), a legal Gillham code (Q = 0, C = 001), two illegal Gillham
+/// codes (Q = 0 with C = 000 and C = 101), all ones, all ones but Q.  The position does not
+/// depend on it; a decoder must deliver the position report whatever the altitude says.
+fn alt_field(class: u64, fill: u64) -> u64 {
+    match class % 7 {
+        0 => 0x000,
+        1 => 0x010 | ((fill % 0x7f) << 5) | (fill & 0xf),
+        2 => 0x0c0, // C4 A4
+        3 => 0x040, // A4 only: C = 000
+        4 => 0x880, // C1 C4: C = 101
+        5 => 0xfff,
+        _ => 0xfef,
+    }
+}
+
 /// DF17 frame carrying an airborne or surface position message with type code `tc`; the
 /// bits the property does not speak about (SS, SAF, altitude / movement, track, T) are
-/// filled from `fill`.
-fn frame(kind: &str, tc: u64, parity: u64, yz: u64, xz: u64, fill: u64) -> Vec<u8> {
+/// filled from `fill`, the altitude class `altc` and `variant` (0 / 1: a second report of
+/// the same position that differs in T, SS, SAF / movement).
+#[allow(clippy::too_many_arguments)]
+fn frame(kind: &str, tc: u64, altc: u64, variant: u64, parity: u64, yz: u64, xz: u64, fill: u64) -> Vec<u8> {
     let icao = 0x400000 + (fill & 0xffff);
-    let t = (fill >> 5) & 1;
+    let t = ((fill >> 5) & 1) ^ variant;
     let payload = if kind == "air" {
         // TC | SS | SAF | ALT | T | F | LAT-CPR | LON-CPR
-        let alt = 0x010 | ((fill % 0x7f) << 5) | (fill & 0xf); // Q = 1, 25 ft code
-        pack(&[(5, 17), (3, 5), (24, icao), (5, tc), (2, (fill >> 6) & 3), (1, (fill >> 4) & 1), (12, alt), (1, t), (1, parity), (17, yz), (17, xz)])
+        let ss = ((fill >> 6) + variant) & 3;
+        let saf = ((fill >> 4) & 1) ^ variant;
+        pack(&[(5, 17), (3, 5), (24, icao), (5, tc), (2, ss), (1, saf), (12, alt_field(altc, fill)), (1, t), (1, parity), (17, yz), (17, xz)])
     } else {
         // TC | MOV | S | TRK | T | F | LAT-CPR | LON-CPR
-        pack(&[(5, 17), (3, 5), (24, icao), (5, tc), (7, fill % 125), (1, 1), (7, (fill >> 3) & 0x7f), (1, t), (1, parity), (17, yz), (17, xz)])
+        pack(&[(5, 17), (3, 5), (24, icao), (5, tc), (7, (fill + 7 * variant) % 125), (1, 1), (7, (fill >> 3) & 0x7f), (1, t), (1, parity), (17, yz), (17, xz)])
     };
     seal(&payload, 0)
 }
 
-fn parse_air(f: &[u8]) -> Option<AirbornePosition> {
+/// What rs1090 makes of a frame this driver built: the position message, or "err" (the
+/// decoder rejected a valid frame or delivered another message type: the caller records
+/// "no position"), or "panic".
+fn parse_air(f: &[u8]) -> Result<AirbornePosition, &'static str> {
     match catch_unwind(|| Message::try_from(f)) {
         Ok(Ok(m)) => match m.df {
             DF::ExtendedSquitterADSB(adsb) => match adsb.message {
-                ME::BDS05(p) => Some(p),
-                _ => None,
+                ME::BDS05(p) => Ok(p),
+                _ => Err("err"),
             },
-            _ => None,
+            _ => Err("err"),
         },
-        _ => None,
+        Ok(Err(_)) => Err("err"),
+        Err(_) => Err("panic"),
     }
 }
 
-fn parse_surf(f: &[u8]) -> Option<SurfacePosition> {
+fn parse_surf(f: &[u8]) -> Result<SurfacePosition, &'static str> {
     match catch_unwind(|| Message::try_from(f)) {
         Ok(Ok(m)) => match m.df {
             DF::ExtendedSquitterADSB(adsb) => match adsb.message {
-                ME::BDS06(p) => Some(p),
-                _ => None,
+                ME::BDS06(p) => Ok(p),
+                _ => Err("err"),
             },
-            _ => None,
+            _ => Err("err"),
         },
-        _ => None,
+        Ok(Err(_)) => Err("err"),
+        Err(_) => Err("panic"),
+    }
+}
+
+/// outcome recorded when the decoder did not deliver the message of a valid frame
+fn no_message(why: &str) -> Value {
+    if why == "panic" {
+        json!({"o": "panic", "parse": "panic"})
+    } else {
+        json!({"o": "none", "parse": "err"})
     }
 }
 
@@ -161,33 +194,71 @@ fn geti(v: &Value, k: &str) -> i64 {
     v[k].as_i64().unwrap_or_else(|| panic!("vector lacks integer field {k}: {v}"))
 }
 
+type Parsed = Result<AirbornePosition, &'static str>;
+
+/// airborne_position(oldest, latest) on two frames as rs1090 parsed them
+fn pair(oldest: &Parsed, latest: &Parsed, tlat: f64, tlon: f64) -> Value {
+    match (oldest, latest) {
+        (Ok(a), Ok(b)) => outcome(catch_unwind(|| airborne_position(a, b)), tlat, tlon),
+        (Err(w), _) | (_, Err(w)) => no_message(w),
+    }
+}
+
+/// [-1, 0, 0]: the decoder rejected the frame; [-2, 0, 0]: it panicked
+fn no_fields(w: &str) -> Value {
+    if w == "panic" {
+        json!([-2, 0, 0])
+    } else {
+        json!([-1, 0, 0])
+    }
+}
+
+fn fields(p: &Parsed) -> Value {
+    match p {
+        Ok(m) => json!([par(&m.parity), m.lat_cpr, m.lon_cpr]),
+        Err(w) => no_fields(w),
+    }
+}
+
 fn run_c04(vectors: &[Value], tr: &mut Trace) {
+    let mut prev: Option<(Parsed, Parsed)> = None;
     for v in vectors {
         let (l, m) = (geti(v, "L"), geti(v, "M"));
         let id = geti(v, "id");
+        let k = id as u64;
         let (tlat, tlon) = (deg(l), deg(m));
+        let g = |name: &str| geti(v, name) as u64;
         // the two reports of a pair use different type codes (barometric / GNSS height mix)
-        let (tc0, tc1) = (type_code("air", id as u64), type_code("air", id as u64 / 13 + 4 * (id as u64 % 13) + 1));
-        let fe = frame("air", tc0, 0, geti(v, "yz0") as u64, geti(v, "xz0") as u64, id as u64);
-        let fo = frame("air", tc1, 1, geti(v, "yz1") as u64, geti(v, "xz1") as u64, id as u64);
-        let (even, odd) = match (parse_air(&fe), parse_air(&fo)) {
-            (Some(a), Some(b)) => (a, b),
-            _ => {
-                tr.emit(json!({"e": "c04", "id": id, "fam": v["fam"], "L": l, "M": m, "parse": "failed"}));
-                continue;
-            }
-        };
-        let eo = outcome(catch_unwind(|| airborne_position(&even, &odd)), tlat, tlon);
-        let oe = outcome(catch_unwind(|| airborne_position(&odd, &even)), tlat, tlon);
-        let ee = outcome(catch_unwind(|| airborne_position(&even, &even)), tlat, tlon);
-        let oo = outcome(catch_unwind(|| airborne_position(&odd, &odd)), tlat, tlon);
-        tr.emit(json!({
-            "e": "c04", "id": id, "fam": v["fam"], "L": l, "M": m, "parse": "ok", "tc0": tc0, "tc1": tc1,
-            // what the decoder was given, as parsed by rs1090 from the frames
-            "p0": par(&even.parity), "yz0": even.lat_cpr, "xz0": even.lon_cpr,
-            "p1": par(&odd.parity), "yz1": odd.lat_cpr, "xz1": odd.lon_cpr,
-            "eo": eo, "oe": oe, "ee": ee, "oo": oo,
-        }));
+        // and independent altitude classes
+        let (k0, k1) = (k, k / 13 + 4 * (k % 13) + 1);
+        let (a0, a1) = (k % 7, (k / 7) % 7);
+        let (tc0, tc1) = (type_code("air", k0), type_code("air", k1));
+        let even = parse_air(&frame("air", tc0, a0, 0, 0, g("yz0"), g("xz0"), k));
+        let odd = parse_air(&frame("air", tc1, a1, 0, 1, g("yz1"), g("xz1"), k));
+        // a second, different report of the same position and parity (other type code,
+        // altitude, T, SS, SAF) and the reports of the neighbouring lattice point
+        let even_b = parse_air(&frame("air", type_code("air", k0 + 1), a0 + 1, 1, 0, g("yz0"), g("xz0"), k));
+        let odd_b = parse_air(&frame("air", type_code("air", k1 + 1), a1 + 1, 1, 1, g("yz1"), g("xz1"), k));
+        let even_n = parse_air(&frame("air", type_code("air", k0 + 2), a0 + 2, 1, 0, g("nyz0"), g("nxz0"), k));
+        let odd_n = parse_air(&frame("air", type_code("air", k1 + 2), a1 + 2, 1, 1, g("nyz1"), g("nxz1"), k));
+        let mut ev = json!({
+            "e": "c04", "id": id, "fam": v["fam"], "L": l, "M": m, "tc0": tc0, "tc1": tc1, "a0": a0, "a1": a1,
+            // what the decoder was given, as parsed by rs1090 from the frames:
+            // [parity, lat_cpr, lon_cpr], or [-1, 0, 0] / [-2, 0, 0] when it delivered no message
+            "f0": fields(&even), "f1": fields(&odd), "g0": fields(&even_b), "g1": fields(&odd_b),
+            "n0": fields(&even_n), "n1": fields(&odd_n),
+            "eo": pair(&even, &odd, tlat, tlon), "oe": pair(&odd, &even, tlat, tlon),
+            // same parity, always two DIFFERENT messages
+            "ee": pair(&even, &even_b, tlat, tlon), "oo": pair(&odd_b, &odd, tlat, tlon),
+            "een": pair(&even_n, &even, tlat, tlon), "oon": pair(&odd, &odd_n, tlat, tlon),
+            "vec": v,
+        });
+        if let Some((pe, po)) = &prev {
+            ev["eep"] = pair(pe, &even, tlat, tlon);
+            ev["oop"] = pair(po, &odd, tlat, tlon);
+        }
+        tr.emit(ev);
+        prev = Some((even, odd));
     }
 }
 
@@ -235,27 +306,29 @@ fn run_c05(vectors: &[Value], tr: &mut Trace) {
         let rlon = if slon > 0 { SPECIAL[slon] } else { deg(geti(v, "Mref")) };
         let (tlat, tlon) = (deg(l), deg(m));
         let tc = type_code(&kind, id as u64 / 10 + 3 * (id as u64 % 10));
-        let f = frame(&kind, tc, i, geti(v, "yz") as u64, geti(v, "xz") as u64, id as u64);
-        let (res, p, yz, xz) = if kind == "air" {
+        let altc = (id as u64 / 10 + 5 * (id as u64 % 10)) % 7;
+        let f = frame(&kind, tc, altc, (id as u64 / 3) & 1, i, geti(v, "yz") as u64, geti(v, "xz") as u64, id as u64);
+        // "f": [parity, lat_cpr, lon_cpr] as parsed, or [-1, 0, 0] / [-2, 0, 0] (no message)
+        let (res, fld) = if kind == "air" {
             match parse_air(&f) {
-                Some(msg) => (
+                Ok(msg) => (
                     outcome_ref(catch_unwind(|| airborne_position_with_reference(&msg, rlat, rlon)), tlat, tlon, rlon),
-                    par(&msg.parity), msg.lat_cpr, msg.lon_cpr,
+                    json!([par(&msg.parity), msg.lat_cpr, msg.lon_cpr]),
                 ),
-                None => (json!({"o": "parse_failed"}), 9, 0, 0),
+                Err(w) => (no_message(w), no_fields(w)),
             }
         } else {
             match parse_surf(&f) {
-                Some(msg) => (
+                Ok(msg) => (
                     outcome_ref(catch_unwind(|| surface_position_with_reference(&msg, rlat, rlon)), tlat, tlon, rlon),
-                    par(&msg.parity), msg.lat_cpr, msg.lon_cpr,
+                    json!([par(&msg.parity), msg.lat_cpr, msg.lon_cpr]),
                 ),
-                None => (json!({"o": "parse_failed"}), 9, 0, 0),
+                Err(w) => (no_message(w), no_fields(w)),
             }
         };
         tr.emit(json!({
-            "e": "c05", "id": id, "fam": v["fam"], "kind": kind, "i": i, "L": l, "M": m, "tc": tc,
-            "p": p, "yz": yz, "xz": xz,
+            "e": "c05", "id": id, "fam": v["fam"], "kind": kind, "i": i, "L": l, "M": m, "tc": tc, "altc": altc,
+            "f": fld,
             "rlat": micro(rlat), "rlon": micro(rlon), "rlatb": f64_bits(rlat), "rlonb": f64_bits(rlon),
             "dref": ruler_mm(tlat, tlon, rlat, rlon),
             "r": res,
